@@ -1,4 +1,5 @@
 import PugModel.Tpl.Exec
+import PugModel.Gen.Tables
 /-!
 # C05 — attributes: values escaped, booleans/null handled, classes merged, order kept
 
@@ -162,5 +163,42 @@ example : renderAttrs [("title", none, " pad <x>\"", true), ("hidden", some true
     = " title=\" pad &lt;x&gt;&#34;\" hidden=\"hidden\"" := by decide
 example : renderAttrs [("class", none, "a", true), ("id", none, "i", true), ("class", none, "b c", true), ("class", some false, "", false)]
     = " class=\"a b c\" id=\"i\"" := by decide
+
+/-! ## the code the model mirrors, by its control skeleton
+
+`Gen.attrSkeleton`: `attrOf` and `classNames` (pugjs/runtime.go): which kinds of value give a boolean record, an omitted record, a class list, a text - every `if` / `switch` / `case` condition, loop header, `return`, `continue`, in source order with nesting depth,
+regenerated from the Go source on every run. It must be the skeleton the attribute record model (`attrRecOf`, `classNamesOf`) was written against: a changed condition, an added
+branch or early exit reopens the obligation before any input is drawn. -/
+
+def expected_attrSkeleton : List (String × String) :=
+  [("attrOf", "0 if ok"),
+   ("attrOf", "1 return []Attribute{…}"),
+   ("attrOf", "0 if ok"),
+   ("attrOf", "1 return []Attribute{…}"),
+   ("attrOf", "0 if ok || v == nil"),
+   ("attrOf", "1 return []Attribute{…}"),
+   ("attrOf", "0 if ok && k == \"class\""),
+   ("attrOf", "1 return []Attribute{…}"),
+   ("attrOf", "0 if ok"),
+   ("attrOf", "1 return []Attribute{…}"),
+   ("attrOf", "0 if ok"),
+   ("attrOf", "1 return []Attribute{…}"),
+   ("attrOf", "0 return []Attribute{…}"),
+   ("classNames", "0 typeswitch "),
+   ("classNames", "1 case *Array"),
+   ("classNames", "2 range v.items"),
+   ("classNames", "2 return out"),
+   ("classNames", "1 case Bool"),
+   ("classNames", "2 if !bool(v)"),
+   ("classNames", "3 return out"),
+   ("classNames", "1 case Nil, nil"),
+   ("classNames", "2 return out"),
+   ("classNames", "0 if ok"),
+   ("classNames", "1 return append(out, o.String())"),
+   ("classNames", "0 return append(out, fmt.Sprintf(\"%v\", v))")]
+
+/-- **C05 (the model's tie to the code, by shape).** -/
+theorem C05_attr_skeleton : Gen.attrSkeleton_ok = true ∧ Gen.attrSkeleton = expected_attrSkeleton := by
+  constructor <;> decide
 
 end Pug.Props.C05
